@@ -133,7 +133,12 @@ pub fn decide(tape: &[u16], depth: usize, budget: isize) -> Result<(Decided, gen
 			// top-level arguments
 			let params = p.ext.iter().map(|(n, _, _)| ast::Param { name: n.clone(), default: None }).collect();
 			let code = ast::print_eval(&Ex::Func(params, bx(p.body.clone())));
-			check(if as_str { "tla-str" } else { "tla-code" }, &code, &Opts { tla: ext, ..Opts::default() }, &m);
+			// a top-level function is called once: when the body is itself a function, wrapping it in the function
+			// that takes the top-level arguments is a different program (its result is the inner function)
+			let body_is_function = matches!(model::run_expr(&ast::std_call("type", vec![base.clone()]), &Interp::new(400_000)), MOut::Val(v) if v == "\"function\"");
+			if !body_is_function {
+				check(if as_str { "tla-str" } else { "tla-code" }, &code, &Opts { tla: ext, ..Opts::default() }, &m);
+			}
 		}
 	}
 	let size = base.size();
@@ -245,13 +250,14 @@ pub fn run(run: &Run) {
 			}
 		}
 	}
-	let n = run.tier.pick(6_000, 150_000);
+	run.enumerate("operator-table", op_table_size(), op_table_case);
+	let n = run.tier.pick(30_000, 400_000);
 	run.explore("programs", n, 20..=400, |src| {
 		// the whole tape is the case
 		let tape: Vec<u16> = std::iter::from_fn(|| if src.exhausted() { None } else { Some(src.raw()) }).collect();
 		case(run, &tape, 5, 60)
 	});
-	let n = run.tier.pick(1_500, 40_000);
+	let n = run.tier.pick(6_000, 100_000);
 	run.explore("programs-large", n, 100..=900, |src| {
 		let tape: Vec<u16> = std::iter::from_fn(|| if src.exhausted() { None } else { Some(src.raw()) }).collect();
 		case(run, &tape, 7, 150)
@@ -261,12 +267,70 @@ pub fn run(run: &Run) {
 	}
 }
 
+/// operand domain of the operator tables: every type, and within a type the pairs that distinguish orderings
+/// (prefixes, equal heads, different lengths, same keys / different values, hidden fields)
+const OP_VALUES: &[&str] = &[
+	"null", "true", "false", "0", "-0", "1", "-1", "2", "3", "0.5", "-2.5", "1e10", "''", "'a'", "'ab'", "'b'", "'A'", "'é'", "'10'", "[]", "[1]", "[1, 2]", "[1, 2, 3]", "[1, 3]",
+	"[2]", "[0, 9]", "['a']", "['a', 'b']", "[[1]]", "[[1], [2]]", "[[1, 2]]", "[null]", "[1, 'a']", "[true]", "{}", "{ a: 1 }", "{ a: 1, b: 2 }", "{ a: 2 }", "{ b: 1 }",
+	"{ a:: 1 }", "{ a: [1] }", "{ a: { b: 1 } }", "function(x) x",
+];
+fn op_table_size() -> u64 {
+	let v = OP_VALUES.len() as u64;
+	(ast::BinOp::ALL.len() as u64) * v * v + 4 * v
+}
+fn op_table_case(i: u64) -> CaseOut {
+	let v = OP_VALUES.len() as u64;
+	let nb = (ast::BinOp::ALL.len() as u64) * v * v;
+	let lit = |k: u64| ast::parse_to_ex(OP_VALUES[k as usize]).expect("operand literal");
+	let (e, cls) = if i < nb {
+		let op = ast::BinOp::ALL[(i / (v * v)) as usize];
+		let (a, b) = ((i / v) % v, i % v);
+		(Ex::Bin(op, Box::new(lit(a)), Box::new(lit(b))), format!("op:{op:?}"))
+	} else {
+		let j = i - nb;
+		let op = [ast::UnOp::Neg, ast::UnOp::Plus, ast::UnOp::Not, ast::UnOp::BitNot][(j / v) as usize];
+		(Ex::Un(op, Box::new(lit(j % v))), format!("op:unary {}", op.sym()))
+	};
+	let text = ast::print_eval(&e);
+	// `string % value` is std.format: decided by C12 against its own references, not by the core-language model
+	if let Ex::Bin(ast::BinOp::Mod, a, _) = &e {
+		if matches!(**a, Ex::Str(..)) {
+			return CaseOut::discard(text, "string formatting operator (C12)");
+		}
+	}
+	// `string * number` is a jrsonnet extension outside the stated language
+	if let Ex::Bin(ast::BinOp::Mul, a, b) = &e {
+		let numlike = |e: &Ex| matches!(e, Ex::Num(..)) || matches!(e, Ex::Un(_, x) if matches!(**x, Ex::Num(..)));
+		if (matches!(**a, Ex::Str(..)) && numlike(b)) || (numlike(a) && matches!(**b, Ex::Str(..))) {
+			return CaseOut::discard(text, "string repetition extension");
+		}
+	}
+	let it = Interp::new(200_000);
+	let m = model::run_expr(&e, &it);
+	let mut problems = vec![];
+	for parser in [Parser::Ir, Parser::Peg] {
+		let got = jr::eval(&text, &Opts { parser, ..Opts::default() });
+		match compare(&m, &got) {
+			Cmp::Agree => {}
+			Cmp::Undecided(w) => return CaseOut::discard(text, &w),
+			Cmp::Disagree(w) => problems.push(format!("{parser:?}: {w}")),
+		}
+	}
+	let outcome = if matches!(m, MOut::Val(_)) { "op-table:value" } else { "op-table:error" };
+	if problems.is_empty() {
+		CaseOut::pass(text, matches!(m, MOut::Val(_))).class(cls).class(outcome)
+	} else {
+		CaseOut::fail(text, problems.join("\n")).class(cls)
+	}
+}
+
 const REGRESSIONS: &[(&str, Option<&str>)] = &[("1 + 2", Some("3")), ("local f(x, y=x) = x + y; f(2)", Some("4")), ("{a: 1} + {a+: 2}", Some("{\"a\":3}")), ("error 'x'", None)];
 
 pub fn replay(run: &Run, stage: &str, tape: Option<&[u16]>, _v: &Value) -> Option<CaseOut> {
 	match (stage, tape) {
 		("programs", Some(t)) => Some(case(run, t, 5, 60)),
 		("programs-large", Some(t)) => Some(case(run, t, 7, 150)),
+		("operator-table", _) => _v["extra"]["index"].as_u64().map(op_table_case),
 		_ => None,
 	}
 }
